@@ -4,13 +4,14 @@
 # The scratch worktree (/tmp/vmut/repo) and its build (/tmp/vmut/build) are reused between
 # mutants (incremental rebuild) and can be removed with:  tools/mutant.sh --clean
 set -u
-W=/tmp/vmut
+W=${VMUT:-/tmp/vmut}
 if [ "${1:-}" = "--clean" ]; then
   git -C /repo worktree remove --force $W/repo 2>/dev/null; rm -rf $W; git -C /repo worktree prune; exit 0
 fi
 mkdir -p $W
 if [ ! -d $W/repo ]; then git -C /repo worktree add --detach $W/repo HEAD >/dev/null 2>&1 || exit 3; fi
 git -C $W/repo checkout -q --detach $(git -C /repo rev-parse HEAD) && git -C $W/repo checkout -q -- . && git -C $W/repo clean -fdq
+if [ -n "${VMUT_BASEPATCH:-}" ]; then git -C $W/repo apply "$VMUT_BASEPATCH" || exit 3; fi
 if [ "$1" = "-e" ]; then
   sed -i "$2" $W/repo/$3 || exit 3; shift 3
   git -C $W/repo diff --stat | tail -1
